@@ -148,12 +148,12 @@ func c02Read(qt *quotaTree, sibs []c02Sib, out []int64) bool {
 // evidence accumulated locally (the kit's counters take a lock) and flushed once per case
 
 type c02Stats struct {
-	evals, belowFloor, belowFloorIsFloor, exactFloor, partial, saturated    int
-	refCompared, refMultiRound, residualRounds, residualUnits               int
-	pairUnsat, pairSatUnsat, zeroWeightCompetitor, zeroWeightAll            int
-	nolendMin, nolendOther, guarOverMin, sumChecksMinFit, sumChecksPhase1   int
-	conservationExact, conservationSaturated, detCompares, sumAtMaxInt64Div int
-	classes                                                                 map[uint32]struct{}
+	evals, belowFloor, belowFloorIsFloor, exactFloor, partial, saturated  int
+	refCompared, refMultiRound, residualRounds, residualUnits             int
+	pairUnsat, pairSatUnsat, zeroWeightCompetitor, zeroWeightAll          int
+	nolendMin, nolendOther, guarOverMin, sumChecksMinFit, sumChecksPhase1 int
+	conservationExact, conservationSaturated, detCompares                 int
+	classes                                                               map[uint32]struct{}
 }
 
 func (st *c02Stats) flush(c *kit.Case) {
@@ -590,12 +590,13 @@ func c02SibOf(s int, name string) c02Sib {
 }
 
 // c02QuickSub is the per-sibling sub-space used for the 3-sibling part in the quick tier:
-// request in {0,1,2,3,5}, min in {0,2}, guarantee in {0,3}, weight in {0,1,2}, both lend flags.
+// request in {0,1,2,3,5}, min in {0,2,5}, guarantee in {0,3}, weight in {0,1,2}, both lend flags
+// (180 descriptors per sibling; guarantee below, between and above the mins).
 func c02QuickSub() []int {
 	var out []int
 	for s := 0; s < c02PerSib; s++ {
 		x := c02SibOf(s, "")
-		if (x.min == 0 || x.min == 2) && (x.guar == 0 || x.guar == 3) {
+		if (x.min == 0 || x.min == 2 || x.min == 5) && (x.guar == 0 || x.guar == 3) {
 			out = append(out, s)
 		}
 	}
@@ -620,7 +621,7 @@ func TestVerifC02SmallExhaustive(t *testing.T) {
 	if thorough {
 		rule += "the same complete space (750^3 sibling tuples x 13 totals)"
 	} else {
-		rule += "the documented sub-space min in {0,2}, guarantee in {0,3} per sibling (120^3 tuples x 13 totals); the complete 3-sibling space is the thorough tier"
+		rule += "the documented sub-space min in {0,2,5}, guarantee in {0,3} per sibling (180^3 tuples x 13 totals); the complete 3-sibling space is the thorough tier"
 	}
 	rule += ". Executed on the real quotaTree.redistribution, every input on two trees built in opposite insertion order and re-used across totals; one kit case = one chunk (all last siblings x all totals for a fixed prefix); distinct = (siblings, outcome class below/at/partial/saturated, rounds, competitors, residual?, zero-weight competitor?, non-lending?); non-trivial = chunk containing a partial division"
 	kit.Run(t, kit.Config{Property: "C02", Unit: "small-exhaustive", Quick: space, Thorough: space, Exhaustive: thorough, Rule: rule},
